@@ -1503,3 +1503,6 @@ mod tests {
         );
     }
 }
+
+#[cfg(kani)]
+pub(crate) mod verif_kani;
